@@ -69,6 +69,63 @@ def kind_of(row):
     return cc.py_failed(row["c"], row["o"])
 
 
+IMPORT_TIMEOUT, IMPORT_MEMORY = 30, 2 << 30
+
+
+def guarded(fn):
+    """Run fn() in a forked child with an address-space limit and a wall-clock limit and return its (picklable) result.
+    An import that does not terminate (an inventory delta that creates a parent cycle makes the compiled CHKInventory
+    code append to a list for ever, un-interruptibly and at ~60 MB/s) must become an observation, not a dead worker."""
+    import pickle as _json
+    import resource
+    import select
+    import signal
+    import time as _time
+    r, w = os.pipe()
+    pid = os.fork()
+    if pid == 0:
+        code = 0
+        try:
+            os.close(r)
+            resource.setrlimit(resource.RLIMIT_AS, (IMPORT_MEMORY, IMPORT_MEMORY))
+            try:
+                out = fn()
+            except MemoryError:
+                out = {"ok": False, "exc": "MemoryError", "site": "fastimport:unbounded-allocation",
+                       "emsg": "import exceeded %d MB" % (IMPORT_MEMORY >> 20), "stage": "import"}
+            data = _json.dumps(out)
+            while data:
+                data = data[os.write(w, data):]
+        except BaseException:  # noqa
+            code = 1
+        finally:
+            os._exit(code)
+    os.close(w)
+    chunks, deadline = [], _time.time() + IMPORT_TIMEOUT
+    try:
+        while True:
+            left = deadline - _time.time()
+            if left <= 0:
+                os.kill(pid, signal.SIGKILL)
+                chunks = None
+                break
+            if select.select([r], [], [], min(left, 1.0))[0]:
+                b = os.read(r, 1 << 16)
+                if not b:
+                    break
+                chunks.append(b)
+    finally:
+        os.close(r)
+        os.waitpid(pid, 0)
+    if chunks:
+        try:
+            return _json.loads(b"".join(chunks))
+        except Exception:  # noqa
+            pass
+    return {"ok": False, "exc": "Hang" if chunks is None else "MemoryError", "site": "fastimport:unbounded-allocation",
+            "emsg": "import did not finish within %d s / %d MB" % (IMPORT_TIMEOUT, IMPORT_MEMORY >> 20), "stage": "import"}
+
+
 def fast_once(ctx, h, idx, root, names, variant, props=None):
     from breezy import branch as B
     from breezy.plugins.fastimport import exporter
@@ -87,20 +144,21 @@ def fast_once(ctx, h, idx, root, names, variant, props=None):
         except Exception as e:  # noqa
             o = dict(cc.failure(e), stage="export")
         if o is None:
-            try:
-                nb = cc.new_branch(os.path.join(work, "dst"))
-                proc = generic_processor.GenericProcessor(nb.controldir, params=None, prune_empty_dirs=prune)
-                with contextlib.redirect_stdout(io.StringIO()):          # the importer prints "ABORT: ..." on errors
-                    proc.process(parser.ImportParser(io.BytesIO(stream)).iter_commands)
-                nb = B.Branch.open(os.path.join(work, "dst"))
-                tip = nb.last_revision()
-                if tip == b"null:":
-                    o = {"ok": False, "exc": "NoTip", "site": "generic_processor", "emsg": "imported branch is empty",
-                         "stage": "import"}
-                else:
-                    o = cc.observe(nb.repository, tip, nb.tags.get_tag_dict())
-            except Exception as e:  # noqa
-                o = dict(cc.failure(e), stage="import")
+            def do_import():
+                try:
+                    nb = cc.new_branch(os.path.join(work, "dst"))
+                    proc = generic_processor.GenericProcessor(nb.controldir, params=None, prune_empty_dirs=prune)
+                    with contextlib.redirect_stdout(io.StringIO()):          # the importer prints "ABORT: ..." on errors
+                        proc.process(parser.ImportParser(io.BytesIO(stream)).iter_commands)
+                    nb = B.Branch.open(os.path.join(work, "dst"))
+                    tip = nb.last_revision()
+                    if tip == b"null:":
+                        return {"ok": False, "exc": "NoTip", "site": "generic_processor", "emsg": "imported branch is empty",
+                                "stage": "import"}
+                    return cc.observe(nb.repository, tip, nb.tags.get_tag_dict())
+                except Exception as e:  # noqa
+                    return dict(cc.failure(e), stage="import")
+            o = guarded(do_import)
     finally:
         shutil.rmtree(work, ignore_errors=True)
     return {"kind": "fast", "c": h, "o": o, "idx": idx, "variant": name,
